@@ -4,7 +4,7 @@ import itertools
 from harness import ir
 
 
-def single(cfg, name, args, mode="normal"):
+def single(cfg, name, args, mode="normal", inplace=False, alias=False):
     """args: list of (type, kind, value); mode: normal | ignore | guard0 | guard1 | guard10 | guard01"""
     stmts = []
     for t, k, v in args:
@@ -13,7 +13,13 @@ def single(cfg, name, args, mode="normal"):
         else:
             stmts.append(["const", v])
     n = len(args)
-    body = [["op", name, list(range(n))]]
+    refs = list(range(n))
+    if alias:
+        # x OP x: one object on both sides (the operands must be equal cells)
+        assert n == 2 and args[0] == args[1]
+        stmts.pop()
+        n, refs = 1, [0, 0]
+    body = [["op", name, refs] + (["inplace"] if inplace else [])]
     cfg = dict(cfg)
     if mode.startswith("ignore+"):
         cfg["ignore"] = True
